@@ -456,6 +456,12 @@ def contract_others(ctx):
             if rep % 2:
                 D = D * np.exp(1j * np.array([[rng.uniform(0, 6) if i != j else 0.0 for j in range(n)] for i in range(n)]))
                 D = (D + D.conj().T) / 2
+            if rep == 2:
+                # directed: real diagonal blocks, off-diagonal blocks whose entries have phases 0 and pi/2 (their squares cancel,
+                # their moduli do not)
+                Tn = 2.0 * np.eye(nb) - np.eye(nb, k=1) - np.eye(nb, k=-1)
+                Bo = np.where((np.add.outer(np.arange(bs), np.arange(bs)) % 2) == 1, 1j, 1.0)
+                D = np.kron(np.diag(np.diag(Tn)), np.eye(bs)).astype(complex) + np.kron(Tn - np.diag(np.diag(Tn)), Bo)
             Ab = sp.bsr_array(D, blocksize=(bs, bs))
             fro = np.sqrt((np.abs(D) ** 2).reshape(nb, bs, nb, bs).sum(axis=(1, 3)))
             for th in (0.1, 0.25, 0.5):
